@@ -11,6 +11,21 @@ CHECKS = {
    technique="TLA+ spec Bookkeeping.tla checked exhaustively by TLC + edge replay of every model transition on the real code",
    text="TLC exhausts every reachable bookkeeping state (memory view, gap rows, seq rows, buffered rows) for small version/seq bounds and checks the seven C02 invariants in each; every transition of that graph is then executed on the real process_multiple_changes / process_fully_buffered_changes / clear_buffered_meta_loop / from_conn / generate_sync and the projected real state must equal the model state, so the invariants transfer to the code for all inputs inside the bounds.",
    note="bounded (versions<=6, seqs<=3, batches<=2); one actor at a time; known finding S2 region exempted (StaleV); trusted: TLC, projection in harness/src/common.rs, SQLite+cr-sqlite"),
+ "C04": dict(
+   level="model_checking", engine="syncneeds", design="§6/C04",
+   technique="TLA+ spec SyncNeeds.tla checked by TLC over all pairs of advertised states + every pair replayed through the real compute_available_needs",
+   text="TLC enumerates every pair of well-formed advertised sync states for an actor within the bounds (heads<=4, any need set, partial versions with any missing-seq set) and checks completeness / within-head / not-self / seq-soundness on the transcribed algorithm; each enumerated pair is run through the real function whose normalised output must equal the specification's and satisfy the same formulas.",
+   note="bounded heads/seqs; the function handles actors independently (read from code) so one actor x {self, foreign} is the whole space; client-side request chunking/de-duplication in parallel_sync not covered"),
+ "C08": dict(
+   level="model_checking", engine="chunker", design="§6/C08",
+   technique="TLA+ specs Chunker.tla / ChunkRange.tla checked by TLC over all inputs and limit schedules + every behaviour replayed on the real ChunkedChanges / chunk_range",
+   text="TLC explores every ordered input (dense, holes, empty, ending early) for start<=2,last<=4(5), sizes {1,2}, every limit schedule with <=2 changes, and checks the tiling invariants at every step plus termination; each completed behaviour is executed on the real iterator (set_max_buf_size between chunks) and the tiling predicate is evaluated on the real output, which must also equal the model's; chunk_range likewise for all (lo,hi,k).",
+   note="bounded sizes; strictly increasing seqs (property precondition); chunk_size 0 excluded"),
+ "C18": dict(
+   level="model_checking", engine="members", design="§6/C18",
+   technique="TLA+ spec Members.tla (ghost fold over notification history) checked exhaustively by TLC + all model edges replayed on the real Members",
+   text="TLC exhausts all admissible up/down notification and RTT-sample sequences for 2 peers x 3 identity timestamps x 4 addresses x 2 clusters and checks view/index/ring/ring0 invariants against the ghost 'newest identity' oracle; every edge of that graph (365k) is executed on the real Members struct and compared state by state.",
+   note="RTT buffers below the real 20-sample capacity; distinct peers never share an address; foca itself is not modelled, only corrosion's reaction to its notifications"),
 }
 
 NOT_APPLICABLE = [
@@ -48,6 +63,9 @@ def main():
             "add_only": True,
         },
         "engines": [
+            {"name": "syncneeds", "path": "specs/SyncNeeds.tla + harness/src/syncneeds.rs + lib/prop_c04.py", "serves_properties": ["C04"], "kind_free_text": "TLA+ enumeration + translation-style replay of every input on the real function"},
+            {"name": "chunker", "path": "specs/Chunker.tla + specs/ChunkRange.tla + harness/src/chunker.rs + lib/prop_c08.py", "serves_properties": ["C08"], "kind_free_text": "TLA+ model checked by TLC; all behaviours replayed"},
+            {"name": "members", "path": "specs/Members.tla + specs/MCMembers.tla + harness/src/members.rs + lib/prop_c18.py", "serves_properties": ["C18"], "kind_free_text": "TLA+ model checked by TLC; all edges replayed"},
             {"name": "bookkeeping", "path": "specs/Bookkeeping.tla + specs/MCBookkeeping.tla + harness/src/bk.rs + lib/prop_c02.py", "serves_properties": ["C02"], "kind_free_text": "TLA+ model checked by TLC; all edges replayed on the real crates"},
         ],
         "checks": checks,
